@@ -171,7 +171,7 @@ CLAIMED = {
          'Lean 4 fidelity theorems (via the C01 round trip) + runs of real associations on real threads with the wire teed',
          'reject_fidelity / abort_fidelity: for every (result, source, reason) resp. (source, reason) over the byte range the '
          'encoded PDU is decoded into an error carrying exactly those values; exit_releases_or_aborts. Real requester and '
-         'acceptor objects with their provider threads run over socket.socketpair(): all standard refusal triples and seeded '
+         'acceptor objects with their provider threads run over a TCP connection on loopback: all standard refusal triples and seeded '
          'ones, aborts by either side at several points, a non-library peer that writes its last PDU and A-ABORT in one '
          'segment and closes, leaving request_association normally and through six kinds of error.',
          'Partial: thread schedules are whatever the OS produces on the run; liveness verdicts count only when they reproduce.'),
